@@ -140,7 +140,9 @@ fn op() -> BoxedStrategy<Op> {
         2 => (0u8..4).prop_map(|user| Op::ClaimTwice { user }),
         5 => (0u8..5).prop_map(|caller| Op::Snapshot { caller }),
         8 => (prop_oneof![8 => Just(1u8), 2 => 2u8..4, 1 => 20u8..30], any::<bool>()).prop_map(|(n, snapshot_first)| Op::NewEpoch { n, snapshot_first }),
-        3 => (0u8..2, gen::amount(1000, 1u128 << 90), 1u8..40).prop_map(|(asset, a, epochs)| Op::OpenFlow { asset, amount: Uint128::new(a), epochs }),
+        // around the 100-epoch claim cap, a snapshot in every epoch
+        1 => (97u8..104).prop_map(|n| Op::NewEpoch { n, snapshot_first: true }),
+        3 => (0u8..2, gen::amount(1000, 1u128 << 90), prop_oneof![4 => 1u8..40, 1 => 100u8..250]).prop_map(|(asset, a, epochs)| Op::OpenFlow { asset, amount: Uint128::new(a), epochs }),
         2 => (any::<u16>(), gen::amount(1, 1u128 << 80)).prop_map(|(sel, a)| Op::ExpandFlow { sel, amount: Uint128::new(a) }),
     ]
     .boxed()
